@@ -1786,6 +1786,12 @@ fn eval_in_list(left: &Value, items: &[Value]) -> Value {
           return VALUE_TRUE;
         }
       }
+      // the test `null` holds for the null value only, the remaining tests are still to be checked
+      Value::Null(_) => {
+        if left.is_null() {
+          return VALUE_TRUE;
+        }
+      }
       _ => return value_null!(),
     }
   }
